@@ -42,7 +42,7 @@ from mc import core, explorer
 from mc.refs import relmodel, oalast as A, oaleval as E
 
 NEEDS_BRIDGEPOINT = True
-BUDGET_S = {'quick': 240, 'thorough': 2400}
+BUDGET_S = {'quick': 3600, 'thorough': 14400}
 ASSUMPTIONS = [
     'programs the reference classifies as ill-typed, erroneous (rejected relate, empty handle), diverging within fuel or '
     'dialect-dependent (inexact integer division, negative modulo) are not transitions',
